@@ -276,20 +276,24 @@ def wideText (buf : Bytes) : Res (Text × Nat) :=
   | .panic e => .panic e
   | .outOfFuel => .outOfFuel
 
-/-- the BrtBundleSh arm (0x009C) on the record payload (`buf[..len]`, the buffer holds exactly the payload in
+/-- (Since the C03/C06 `fix:` commits on `read_workbook` and `fill_buffer` every record shorter than the fixed
+    part of its layout, and a relationship id missing from workbook.bin.rels, is `Err(Unrecognized{typ: "<record>:len"
+    | "BrtBundleSh:relId", ..})` instead of a slice / map-index panic; `fill_buffer` leaves exactly the payload in
+    the buffer, no stale tail.)
+    The BrtBundleSh arm (0x009C) on the record payload (`buf[..len]`, the buffer holds exactly the payload in
     the first loop): `none` = the record has no relationship id (`rel_len == 0xFFFFFFFF`) and is skipped.
     `rels`: relationship id → target (`xl/_rels/workbook.bin.rels`). -/
 def bundleSh (rels : List (Text × String)) (buf : Bytes) : Res (Option (Sheet Text × List Char)) :=
-  if buf.length < 12 then .panic "BrtBundleSh: read_u32(&buf[8..len])"
+  if buf.length < 12 then .err (unrec "BrtBundleSh:len" (toString buf.length))
   else
     let relLen := u32At buf 8
     if relLen = 0xFFFFFFFF then .ok none
     else
-      if buf.length < 12 + relLen * 2 then .panic "BrtBundleSh: &buf[12..12 + rel_len]"
+      if buf.length < 12 + relLen * 2 then .err (unrec "BrtBundleSh:len" (toString buf.length))
       else
         let relid := Biff.decodeUtf16 (Xlsb.units ((buf.drop 12).take (relLen * 2)))
         match rels.lookup relid with
-        | none => .panic "BrtBundleSh: relationships[relid]"
+        | none => .err (unrec "BrtBundleSh:relId" (toString relid.length))
         | some target =>
           let path := "xl/".toList ++ target.toList
           match Gen.xlsbVisTable.lookup (Xlsb.u32le buf) with
@@ -331,7 +335,7 @@ def xlsbLoop1With (skipUnknown : Bool) (rels : List (Text × String)) : Nat → 
       if typ = 0x0099 then
         match Xlsb.fillBuffer [] r with
         | .ok (_, buf, r') =>
-          if buf.isEmpty then .panic "BrtWbProp: buf[0]"
+          if buf.isEmpty then .err (unrec "BrtWbProp:len" "0")
           else xlsbLoop1With skipUnknown rels fuel r' { st with is1904 := byteAt buf 0 % 2 = 1 }
         | .err e => .err e
         | .panic e => .panic e
@@ -388,7 +392,7 @@ def externLoop (sheets : List (Sheet Text × List Char)) : Nat → Bytes → Res
   | 0, _ => .ok []
   | n + 1, d =>
     if d.isEmpty then .ok []
-    else if d.length < 8 then .panic "BrtExternSheet: &xti[4..8]"
+    else if d.length < 8 then .err (unrec "BrtExternSheet:len" (toString d.length))
     else
       match externLoop sheets n (d.drop 12) with
       | .ok l => .ok (externName sheets (d.take 12) :: l)
@@ -398,14 +402,14 @@ def externLoop (sheets : List (Sheet Text × List Char)) : Nat → Bytes → Res
 
 /-- the BrtName arm (0x0027) on `buf` (payload length `len`): `(name, rgce)` -/
 def brtName (buf : Bytes) (len : Nat) : Res (Text × Bytes) :=
-  if len < 9 then .panic "BrtName: &buf[9..len]"
+  if len < 9 then .err (unrec "BrtName:len" (toString len))
   else
     match wideText ((buf.take len).drop 9) with
     | .ok (name, strLen) =>
-      if buf.length < 9 + strLen + 4 then .panic "BrtName: read_u32(&buf[9 + str_len..])"
+      if buf.length < 9 + strLen + 4 then .err (unrec "BrtName:len" (toString len))
       else
         let rgceLen := u32At buf (9 + strLen)
-        if buf.length < 13 + strLen + rgceLen then .panic "BrtName: &buf[13 + str_len..13 + str_len + rgce_len]"
+        if buf.length < 13 + strLen + rgceLen then .err (unrec "BrtName:len" (toString len))
         else .ok (name, (buf.drop (13 + strLen)).take rgceLen)
     | .err e => .err e
     | .panic e => .panic e
@@ -427,7 +431,7 @@ def xlsbLoop2With (skipUnknown : Bool) (parseFmla : Bytes → List Text → List
       if typ = 0x016A then
         match Xlsb.fillBuffer buf r with
         | .ok (_, buf', r') =>
-          if buf'.length < 4 then .panic "BrtExternSheet: read_u32(&buf[..4])"
+          if buf'.length < 4 then .err (unrec "BrtExternSheet:len" (toString buf'.length))
           else
             match externLoop sheets (Xlsb.u32le buf') (buf'.drop 4) with
             | .ok ext' => xlsbLoop2With skipUnknown parseFmla sheets fuel r' buf' ext' names
@@ -554,6 +558,8 @@ structure XlsxSt where
   is1904 : Bool := false
   /-- inside `<definedName name=…>`: (name, the element's qualified name, text collected so far) -/
   cur : Option (String × String × String) := none
+  /-- inside `xml.read_to_end_into(e.name(), …)` of the `extLst` arm: (qualified name to close, nesting depth) -/
+  skip : Option (String × Nat) := none
   deriving Repr, DecidableEq
 
 /-- `["1", "true"].contains(value)` for `date1904`, `false` without the attribute -/
@@ -562,42 +568,77 @@ def date1904Attr (attrs : List (String × String)) : Bool :=
   | some v => v = "1" || v = "true"
   | none => false
 
-/-- `read_workbook`: the outer `loop { match xml.read_event_into … }` and the inner loop of the
-    `definedName` arm as one pass over the events (`cur ≠ none` = inside the inner loop).
-    `prMatch` = the test of the `workbookPr` arm on the element name. -/
-def xlsxLoopWith (prMatch : String → Bool) (rels : List (String × String)) : List Ev → XlsxSt → Res XlsxSt
-  | [], _ => .err "XmlEof:workbook"
+/-- the three versions of the `workbookPr` / `extLst` handling this model knows -/
+structure XlsxCfg where
+  /-- the test of the `workbookPr` arm on the element name -/
+  prMatch : String → Bool
+  /-- the subtree of an `extLst` element is skipped (`read_to_end_into`; fix 4dbff9e) -/
+  skipExt : Bool
+  /-- a `workbookPr` without `date1904` leaves the flag alone (fix 4dbff9e); before, it reset the flag to `false` -/
+  keepFlag : Bool
+
+/-- the value of `self.is_1904` after a `workbookPr` start tag -/
+def date1904Upd (keep : Bool) (old : Bool) (attrs : List (String × String)) : Bool :=
+  if keep then
+    match attrs.lookup "date1904" with
+    | some v => v = "1" || v = "true"
+    | none => old
+  else date1904Attr attrs
+
+/-- `read_workbook`: the outer `loop { match xml.read_event_into … }`, the inner loop of the `definedName` arm
+    (`cur ≠ none`) and quick-xml's `read_to_end_into` of the `extLst` arm (`skip ≠ none`: nested start tags of the
+    same qualified name are counted) as one pass over the events. -/
+def xlsxLoopWith (cfg : XlsxCfg) (rels : List (String × String)) : List Ev → XlsxSt → Res XlsxSt
+  | [], st => if st.skip.isSome then .err "Xml:missing end tag" else .err "XmlEof:workbook"
   | ev :: rest, st =>
+    match st.skip with
+    | some (q, depth) =>
+      match ev with
+      | .start n _ => if n = q then xlsxLoopWith cfg rels rest { st with skip := some (q, depth + 1) } else xlsxLoopWith cfg rels rest st
+      | .end_ n =>
+        if n = q then
+          if depth = 0 then xlsxLoopWith cfg rels rest { st with skip := none }
+          else xlsxLoopWith cfg rels rest { st with skip := some (q, depth - 1) }
+        else xlsxLoopWith cfg rels rest st
+      | _ => xlsxLoopWith cfg rels rest st
+    | none =>
     match st.cur with
     | some (nm, q, val) =>
       match ev with
-      | .text t => xlsxLoopWith prMatch rels rest { st with cur := some (nm, q, val ++ t) }
+      | .text t => xlsxLoopWith cfg rels rest { st with cur := some (nm, q, val ++ t) }
       | .end_ n =>
-        if n = q then xlsxLoopWith prMatch rels rest { st with names := st.names ++ [(nm, val)], cur := none }
-        else xlsxLoopWith prMatch rels rest st
-      | _ => xlsxLoopWith prMatch rels rest st
+        if n = q then xlsxLoopWith cfg rels rest { st with names := st.names ++ [(nm, val)], cur := none }
+        else xlsxLoopWith cfg rels rest st
+      | _ => xlsxLoopWith cfg rels rest st
     | none =>
       match ev with
       | .start n attrs =>
-        if localName n = "sheet" then
+        if cfg.skipExt ∧ localName n = "extLst" then xlsxLoopWith cfg rels rest { st with skip := some (n, 0) }
+        else if localName n = "sheet" then
           match xlsxSheet rels attrs with
-          | .ok s => xlsxLoopWith prMatch rels rest { st with sheets := st.sheets ++ [s] }
+          | .ok s => xlsxLoopWith cfg rels rest { st with sheets := st.sheets ++ [s] }
           | .err e => .err e
           | .panic e => .panic e
           | .outOfFuel => .outOfFuel
-        else if prMatch n then xlsxLoopWith prMatch rels rest { st with is1904 := date1904Attr attrs }
+        else if cfg.prMatch n then xlsxLoopWith cfg rels rest { st with is1904 := date1904Upd cfg.keepFlag st.is1904 attrs }
         else if localName n = "definedName" then
           match attrs.lookup "name" with
-          | some nm => xlsxLoopWith prMatch rels rest { st with cur := some (nm, n, "") }
-          | none => xlsxLoopWith prMatch rels rest st
-        else xlsxLoopWith prMatch rels rest st
-      | .end_ n => if localName n = "workbook" then .ok st else xlsxLoopWith prMatch rels rest st
-      | _ => xlsxLoopWith prMatch rels rest st
+          | some nm => xlsxLoopWith cfg rels rest { st with cur := some (nm, n, "") }
+          | none => xlsxLoopWith cfg rels rest st
+        else xlsxLoopWith cfg rels rest st
+      | .end_ n => if localName n = "workbook" then .ok st else xlsxLoopWith cfg rels rest st
+      | _ => xlsxLoopWith cfg rels rest st
 
-/-- the code after fix D22: `e.local_name() == b"workbookPr"` -/
-def xlsxLoop := xlsxLoopWith (fun n => localName n == "workbookPr")
+/-- the code as it is (after fixes D22 60648c6 and 4dbff9e): `local_name() == b"workbookPr"`, `extLst` skipped,
+    the flag assigned only when the attribute is present -/
+def cfgNow : XlsxCfg := ⟨fun n => localName n == "workbookPr", true, true⟩
+/-- between 60648c6 and 4dbff9e (the regression, finding C16-b): local name, no skipping, flag reset -/
+def cfgD22Fix : XlsxCfg := ⟨fun n => localName n == "workbookPr", false, false⟩
 /-- the pinned snapshot (ledger D22): `e.name() == b"workbookPr"` -/
-def xlsxLoopD22 := xlsxLoopWith (fun n => n == "workbookPr")
+def cfgPinned : XlsxCfg := ⟨fun n => n == "workbookPr", false, false⟩
+
+def xlsxLoop := xlsxLoopWith cfgNow
+def xlsxLoopD22 := xlsxLoopWith cfgPinned
 
 def xlsxFinish (r : Res XlsxSt) : Res (Workbook String × List (List Char)) :=
   match r with
@@ -612,6 +653,10 @@ def readWorkbookXlsx (rels : List (String × String)) (evs : List Ev) : Res (Wor
 
 def readWorkbookXlsxD22 (rels : List (String × String)) (evs : List Ev) : Res (Workbook String × List (List Char)) :=
   xlsxFinish (xlsxLoopD22 rels evs {})
+
+/-- the reader between the D22 fix and 4dbff9e (finding C16-b) -/
+def readWorkbookXlsxD22Fix (rels : List (String × String)) (evs : List Ev) : Res (Workbook String × List (List Char)) :=
+  xlsxFinish (xlsxLoopWith cfgD22Fix rels evs {})
 
 /-! ### ods `parse_content` (metadata part) -/
 
